@@ -58,8 +58,28 @@ def case_ip_write(p):
     n = 0
     try:
         reply = {}
-        rig.acc.handler = std_handler({("PUT", "/characteristics"): lambda *a: (reply["code"], reply["body"], "application/hap+json")})
+        import json as _json
+
+        def put(sess, method, target, headers, body):
+            if any("ev" in c for c in _json.loads(body).get("characteristics", [])):
+                return 204, b"", None  # a subscription request: always granted
+            return reply["code"], reply["body"], "application/hap+json"
+
+        rig.acc.handler = std_handler({("PUT", "/characteristics"): put})
+        rig.acc.http_style = p.get("wire")
         rig.connect()
+        # the pairing's history before the writes: none, subscribed to (some of) the written characteristics, subscribed and reconnected, ...
+        pre = p.get("pre")
+        if pre in ("subscribed", "subscribed-reconnected", "subscribed-unsubscribed"):
+            rig.run(rig.pairing.subscribe(ids))
+            if pre == "subscribed-unsubscribed":
+                rig.run(rig.pairing.unsubscribe(ids[:1]))
+            if pre == "subscribed-reconnected":
+                rig.net.conns[-1].peer_close()
+                rig.loop.run_until_idle()
+                rig.connect()
+        elif pre == "subscribed-first":
+            rig.run(rig.pairing.subscribe(ids[:1]))
         notes = []
         rig.pairing.dispatcher_connect(lambda ev: notes.append(dict(ev)))
         for statuses, shape, malformed, dup in p["replies"]:
@@ -78,7 +98,7 @@ def case_ip_write(p):
             reply["code"], reply["body"] = build_write_reply(ids, statuses, shape, malformed, dup)
             del notes[:]
             vals = {k: (i + 1) for i, k in enumerate(ids)}
-            det = {"transport": "ip", "ids": ids, "statuses": statuses, "shape": shape, "malformed": malformed, "dup": dup}
+            det = {"transport": "ip", "ids": ids, "statuses": statuses, "shape": shape, "malformed": malformed, "dup": dup, "history": p.get("pre"), "wire": p.get("wire")}
             try:
                 res = rig.run(rig.pairing.put_characteristics([(a, i, vals[(a, i)]) for a, i in ids]))
                 raised = None
@@ -158,11 +178,12 @@ def case_ip_read(p):
     try:
         reply = {}
         rig.acc.handler = std_handler({("GET", "/characteristics"): lambda *a: (reply["code"], reply["body"], "application/hap+json")})
+        rig.acc.http_style = p.get("wire")
         rig.connect()
         for statuses, shape, malformed, dup, gstatus in p["replies"]:
             n += 1
             reply["code"], reply["body"] = build_read_reply(ids, statuses, shape, malformed, dup, gstatus)
-            det = {"transport": "ip", "ids": ids, "statuses": statuses, "shape": shape, "malformed": malformed, "dup": dup, "global": gstatus}
+            det = {"transport": "ip", "ids": ids, "statuses": statuses, "shape": shape, "malformed": malformed, "dup": dup, "global": gstatus, "wire": p.get("wire")}
             try:
                 res = rig.run(rig.pairing.get_characteristics(list(ids)))
             except Exception as e:  # noqa: BLE001
@@ -249,6 +270,11 @@ def plan(tier):
                     reps.append((vec, "207-full", m, dup))
         for i in range(0, len(reps), 120):
             work.append(("ip_write", {"ids": ids, "replies": reps[i : i + 120]}))
+            if i == 0 or not quick:
+                for pre in ("subscribed", "subscribed-first", "subscribed-reconnected", "subscribed-unsubscribed"):
+                    work.append(("ip_write", {"ids": ids, "replies": reps[i : i + 120], "pre": pre}))
+                for wire in ("chunked", "lower", "chunked-2") if quick else ("chunked", "lower", "chunked-2", "upper", "mixed", "lws", "extra-headers", "chunked-lower"):
+                    work.append(("ip_write", {"ids": ids, "replies": reps[i : i + 120], "wire": wire}))
     for ids in READ_SETS:
         if quick and len(ids) > 3:
             continue
@@ -266,6 +292,9 @@ def plan(tier):
                 reps.append((["omit"] + [0] * (len(ids) - 1), "list", m, dup, -70402))
         for i in range(0, len(reps), 150):
             work.append(("ip_read", {"ids": ids, "replies": reps[i : i + 150]}))
+            if i == 0 or not quick:
+                for wire in ("chunked", "lower", "chunked-2") if quick else ("chunked", "lower", "chunked-2", "upper", "mixed", "lws", "extra-headers", "chunked-lower"):
+                    work.append(("ip_read", {"ids": ids, "replies": reps[i : i + 150], "wire": wire}))
     for _mod in ("c13_coap", "c13_ble"):
         try:
             _m = __import__(f"vt.props.{_mod}", fromlist=["plan"])
